@@ -77,9 +77,13 @@ def rg_json(groups):
     out = []
     for p, lines in groups:
         out.append({"type": "begin", "data": {"path": {"text": p}}})
-        for kind, n, code in lines:
+        for li, (kind, n, code) in enumerate(lines):
             subs = submatches(code) if kind == "match" else []
-            out.append({"type": kind, "data": {"path": {"text": p}, "lines": {"text": code + "\n"}, "line_number": n, "absolute_offset": 0,
+            # rg reports the line with its terminator: LF, CRLF, or none for the last line of a file without a final newline
+            term_ = "\n"
+            if li == len(lines) - 1:
+                term_ = ["\n", "", "\r\n"][(len(code) + n) % 3]
+            out.append({"type": kind, "data": {"path": {"text": p}, "lines": {"text": code + term_}, "line_number": n, "absolute_offset": 0,
                                                "submatches": [{"match": {"text": MATCH}, "start": a, "end": b} for a, b in subs]}})
         out.append({"type": "end", "data": {"path": {"text": p}, "binary_offset": None, "stats": {}}})
     out.append({"type": "summary", "data": {"elapsed_total": {"human": "0s", "nanos": 1, "secs": 0}, "stats": {}}})
@@ -172,7 +176,7 @@ def main(tier, replay=None):
         chk.oblige("build:delta-with-hooks", False, out[-2000:])
         return chk.finish()
     vlib.build_native()
-    vlib.standard_proof_obligations(chk, "PropC16")
+    vlib.standard_proof_obligations(chk, "PropC16", gen_names=("grep",))
     ok, out = vlib.build_vmodel()
     if not ok:
         chk.oblige("build:vmodel", False, out[-2000:])
